@@ -121,7 +121,10 @@ class Report:
                 hit.append((kf, ident))
             else:
                 new.append((ident, ex))
-        os.makedirs(os.path.join(ROOT, 'replays', self.pid), exist_ok=True)
+        rdir = os.path.join(ROOT, 'replays', self.pid)
+        os.makedirs(rdir, exist_ok=True)
+        for f in os.listdir(rdir):
+            os.unlink(os.path.join(rdir, f))
         lines = []
         for kf, ident in hit:
             lines.append('KNOWN-FINDING: property=%s %s' % (self.pid, kf['what']))
